@@ -89,7 +89,7 @@ class Agg(object):
             e = self.violations.get(key)
             if e is None:
                 self.violations[key] = {'sig': v['sig'], 'msg': v['msg'], 'scn': scn, 'count': 1,
-                                        'origin': origin}
+                                        'origin': origin, 'scn_first': scn, 'origin_first': origin}
             else:
                 e['count'] += 1
                 # keep the smallest witness seen
@@ -175,13 +175,18 @@ def run_batch(pid, tier, seed, budget_s, kind='seeded', max_runs=10 ** 9):
 
 
 # --------------------------------------------------------------------- replay
-def write_replay(pid, scn, sig, msg, digest, origin, tag):
+def write_replay(pid, scn, sig, msg, digest, origin, tag, prelude=None):
     d = os.path.join(ROOT, 'out', 'replays')
     os.makedirs(d, exist_ok=True)
     path = os.path.join(d, '%s-%s.json' % (pid, tag))
+    doc = {'property': pid, 'format': 1, 'origin': origin, 'signature': sig, 'message': msg,
+           'digest': digest, 'scenario': scn}
+    if prelude:
+        # history-dependent violation: these scenarios are executed first, in this order, in the
+        # same interpreter (the code under test carries state from one execution into the next)
+        doc['prelude'] = prelude
     with open(path, 'w') as f:
-        json.dump({'property': pid, 'format': 1, 'origin': origin, 'signature': sig, 'message': msg,
-                   'digest': digest, 'scenario': scn}, f, indent=1, sort_keys=True)
+        json.dump(doc, f, indent=1, sort_keys=True)
     return path
 
 
@@ -190,6 +195,8 @@ def replay_file(path, verbose=True):
     with open(path) as f:
         doc = json.load(f)
     prop = load_prop(doc['property'])
+    for pre in doc.get('prelude') or []:
+        prop.execute(pre)
     out = prop.execute(doc['scenario'])
     sigs = [v['sig'] for v in out.get('violations') or []]
     want = doc.get('signature')
@@ -215,6 +222,71 @@ def confirm_in_fresh_interpreter(path):
     p = subprocess.run([sys.executable, os.path.join(ROOT, 'check.py'), '--replay', path],
                        capture_output=True, text=True, env=env, timeout=300)
     return p.returncode == 1, p.stdout[-2000:] + p.stderr[-2000:]
+
+
+def predecessors(prop, pid, tier, seed, origin, n):
+    """The up to n scenarios the same worker executed right before the one at `origin`."""
+    out = []
+    try:
+        if origin.startswith('seed='):
+            idx = int(origin.split('index=')[1])
+            i = idx - NPROC
+            while i >= 0 and len(out) < n:
+                out.append(prop.generate(scenario_rng(seed, pid, tier, i), tier, i))
+                i -= NPROC
+        elif origin.startswith('systematic#'):
+            idx = int(origin.split('#')[1])
+            want = set(range(idx - NPROC * n, idx, NPROC))
+            for i, scn in enumerate(prop.systematic(tier)):
+                if i >= idx:
+                    break
+                if i in want:
+                    out.insert(0, scn)
+    except Exception:
+        pass
+    out.reverse() if origin.startswith('seed=') else None
+    return out          # oldest first
+
+
+def confirm_with_history(prop, pid, tier, seed, e, tag):
+    """A violation that does not reproduce on its own in a fresh interpreter may depend on state the
+    code under test carried over from earlier executions in the worker process.  Look for a prelude
+    (earlier scenarios of the same worker) that reproduces it from a fresh interpreter, minimise the
+    prelude, and return the replay path - or None."""
+    scn, sig = e.get('scn_first', e['scn']), e['sig']
+    origin = e.get('origin_first', e['origin'])
+    for n in (1, 2, 4, 8, 16, 32, 64, 128):
+        pre = predecessors(prop, pid, tier, seed, origin, n)
+        if not pre:
+            return None
+        path = write_replay(pid, scn, sig, e['msg'], None, origin, tag + '-hist', prelude=pre)
+        ok, _ = confirm_in_fresh_interpreter(path)
+        if ok:
+            # greedy minimisation of the prelude (each trial is a fresh interpreter)
+            changed = True
+            trials = 0
+            while changed and len(pre) > 1 and trials < 40:
+                changed = False
+                size = max(1, len(pre) // 2)
+                while size >= 1 and not changed:
+                    for start in range(0, len(pre), size):
+                        cand = pre[:start] + pre[start + size:]
+                        if not cand:
+                            continue
+                        trials += 1
+                        p2 = write_replay(pid, scn, sig, e['msg'], None, origin, tag + '-hist', prelude=cand)
+                        ok2, _ = confirm_in_fresh_interpreter(p2)
+                        if ok2:
+                            pre = cand
+                            changed = True
+                            break
+                        if trials >= 40:
+                            break
+                    size //= 2
+            return write_replay(pid, scn, sig, e['msg'], None, origin, tag + '-hist', prelude=pre)
+        if len(pre) < n:
+            break
+    return None
 
 
 # ---------------------------------------------------------------------- main
@@ -288,8 +360,18 @@ def run_check(pid, tier, seed):
             exit_code = 1
             replays.append(path)
         else:
-            print('HARNESS-ERROR: violation did not reproduce in a fresh interpreter: %s\n%s' % (path, text))
-            exit_code = 2
+            hist = confirm_with_history(prop, pid, tier, seed, e, tag)
+            if hist is not None:
+                print('VIOLATION property=%s replay=%s' % (pid, hist))
+                print('  signature: %s' % json.dumps(e['sig'], sort_keys=True))
+                print('  %s  (history-dependent: reproduces only after the prelude scenarios stored in the replay file were '
+                      'executed in the same interpreter - state leaks from one execution into the next; first at %s)'
+                      % (e['msg'], e.get('origin_first', e['origin'])))
+                exit_code = 1
+                replays.append(hist)
+            else:
+                print('HARNESS-ERROR: violation did not reproduce in a fresh interpreter: %s\n%s' % (path, text))
+                exit_code = 2
     if len(new) > 8:
         print('... and %d more distinct violating signatures' % (len(new) - 8))
     for he in total.harness_errors[:5]:
